@@ -48,7 +48,8 @@ def items(tier):
     q = tier == "quick"
     out = []
     temps = ["poisson-linsolve", "linsolve-dense", "linsolve-classchange", "linsolve-diagchange", "linsolve-patternchange", "overhang", "densityfilter", "filterconv",
-             "sysofeq", "statcond", "assemble-const", "aggregation-active", "eigensolve-sparse"]
+             "sysofeq", "statcond", "assemble-const", "aggregation-active", "eigensolve-sparse", "eigensolve-dense",
+             "eigensolve-dense-classchange"]
     if not q:
         temps += ["linsolve-dense-lda", "linsolve-classchange-lda", "linsolve-dense3"]
     for t in temps:
@@ -56,6 +57,8 @@ def items(tier):
             if q and h in ("three-cycles",) and t not in ("linsolve-dense", "overhang"):
                 continue
             if h.startswith("partial-seeds") and t not in ("sysofeq", "linsolve-dense", "poisson-linsolve", "statcond", "eigensolve-sparse"):
+                continue
+            if t.startswith("eigensolve-dense") and h not in ("two-cycles", "no-sens-first"):
                 continue
             if t == "eigensolve-sparse" and (h not in ("partial-seeds", "partial-seeds-rounds", "two-cycles") or (q and h == "two-cycles")):
                 continue
@@ -93,6 +96,46 @@ def make(V, template, ncyc=3):
             sx.state = V.reals("x%d" % k, 1, positive=True)
             sf.state = V.reals("f%d" % k, 4)
         return Net(net, [sx, sf], [m3.sig_out[0], m2.sig_out[0]], [sx, sf] + [m.sig_out[0] for m in (m1, m2, m3)], setter)
+
+    if template in ("eigensolve-dense", "eigensolve-dense-classchange"):
+        # dense EigenSolve re-used over cycles; "-classchange": symmetric matrix in the first cycle, general afterwards
+        n = 2
+        sA = pym.Signal("A")
+        m = pym.EigenSolve([sA])
+        net = pym.Network(m)
+
+        def setter(k):
+            W = np.array([V.real("W%d_%d" % (k, i), default=0.5 * k + 1.5 * i) for i in range(n)], dtype=object if V.symbolic else float)
+            if V.symbolic:
+                V.assume(W[0] < W[1], "simple eigenvalues, ascending (eigh contract; eig returns them in the registered order)")
+            symmetric = (k == 1) if template.endswith("classchange") else True
+            if symmetric:
+                t = V.real("t%d" % k, default=0.2 * k)
+                den = 1 + t * t
+                c_, s2 = (1 - t * t) / den, 2 * t / den
+                Q = np.array([[c_, -s2], [s2, c_]], dtype=object if V.symbolic else float)
+                Qinv = Q.T
+            else:
+                Q = np.asarray(V.reals("Q%d" % k, (n, n)))
+                if not V.symbolic:
+                    Q = Q + np.array([[1.0, 0.25], [-0.5, 1.0]]) * (0.0 if np.abs(Q).sum() > 0 else 1.0)
+                detQ = Q[0, 0] * Q[1, 1] - Q[0, 1] * Q[1, 0]
+                if V.symbolic:
+                    V.assume(detQ != 0, "eigenvector matrix non-singular")
+                Qinv = np.array([[Q[1, 1], -Q[0, 1]], [-Q[1, 0], Q[0, 0]]], dtype=object if V.symbolic else float) / detQ
+            D = np.array([[W[0], 0], [0, W[1]]], dtype=object if V.symbolic else float)
+            A = Q @ D @ Qinv
+            if V.symbolic:
+                from symx import factor
+                A = wrap(np.asarray(A, dtype=object))
+                if not symmetric:
+                    V.assume(A[0, 1] != A[1, 0], "general class: not symmetric")
+                factor.register("eig", (wrap(np.asarray(W, dtype=object)), wrap(np.asarray(Q, dtype=object))))
+            else:
+                A = np.asarray(A, dtype=float)
+            sA.state = A
+        N = Net(net, [sA], [m.sig_out[0], m.sig_out[1]], [sA, m.sig_out[0], m.sig_out[1]], setter)
+        return N
 
     if template == "eigensolve-sparse":
         # sparse EigenSolve (n = 3, two modes) with eigenvector sensitivities: per-mode adjoint factorisations are cached
